@@ -74,6 +74,10 @@ func genValue(t reflect.Type, depth int) reflect.Value {
 			s := reflect.MakeSlice(t, n, n)
 			for i := 0; i < n; i++ {
 				s.Index(i).Set(genValue(t.Elem(), depth-1))
+				if i > 0 && t.Elem().Kind() == reflect.Interface && rng.Intn(4) == 0 && !s.Index(i-1).IsNil() {
+					// a neighbour of the same dynamic type holding its zero value
+					s.Index(i).Set(reflect.Zero(s.Index(i - 1).Elem().Type()))
+				}
 			}
 			v.Set(s)
 		}
@@ -155,7 +159,7 @@ func genDatum() interface{} {
 	case r < 1:
 		return nil
 	case r < 45:
-		t := structTypes[[]int{0, 1, 2, 0, 1, 2, 4, 5, 6, 7}[rng.Intn(10)]] // S4 (whose bad tag poisons every lookup) only rarely
+		t := structTypes[[]int{0, 1, 2, 0, 1, 2, 4, 5, 6, 7, 8, 9}[rng.Intn(12)]] // S4 (whose bad tag poisons every lookup) only rarely
 		if rng.Intn(25) == 0 {
 			t = structTypes[3]
 		}
@@ -523,10 +527,20 @@ func genExpr(d interface{}, tag string, depth int, prefix string, leafOf reflect
 		return genMatch(d, tag, prefix, leafOf)
 	}
 	switch rng.Intn(8) {
-	case 0:
-		return genExpr(d, tag, depth-1, prefix, leafOf) + " and " + genExpr(d, tag, depth-1, prefix, leafOf)
-	case 1:
-		return genExpr(d, tag, depth-1, prefix, leafOf) + " or " + genExpr(d, tag, depth-1, prefix, leafOf)
+	case 0, 1:
+		op := []string{" and ", " or "}[rng.Intn(2)]
+		a, b := genExpr(d, tag, depth-1, prefix, leafOf), genExpr(d, tag, depth-1, prefix, leafOf)
+		switch rng.Intn(10) {
+		case 0: // an operand written twice in one chain, another one in between
+			return parenIfQuant(a) + op + parenIfQuant(b) + op + parenIfQuant(a)
+		case 1:
+			return parenIfQuant(a) + op + parenIfQuant(a)
+		case 2: // siblings: the same quantifier header with two bodies
+			if h, b1, ok := splitQuant(a); ok {
+				return "( " + h + " { " + b1 + " } )" + op + "( " + h + " { " + genExpr(d, tag, 0, quantVar(h), reflect.Value{}) + " } )"
+			}
+		}
+		return parenIfQuant(a) + op + parenIfQuant(b)
 	case 2:
 		return "not " + genExpr(d, tag, depth-1, prefix, leafOf)
 	case 3:
@@ -581,6 +595,9 @@ func genExpr(d interface{}, tag string, depth int, prefix string, leafOf reflect
 			op := []string{"any", "all"}[rng.Intn(2)]
 			names := []string{"x", "y", "v", "A", "M"}
 			n1, n2 := names[rng.Intn(len(names))], names[rng.Intn(len(names))]
+			if first := firstSegment(pi.parts); first != "" && rng.Intn(8) == 0 {
+				n1 = first // the index / key name is the name the selector starts with
+			}
 			var bind, use string
 			switch rng.Intn(4) {
 			case 0:
@@ -594,10 +611,59 @@ func genExpr(d interface{}, tag string, depth int, prefix string, leafOf reflect
 				elem = reflect.Value{}
 			}
 			body := genExpr(d, tag, depth-1, use, elem)
+			if rng.Intn(12) == 0 { // the same collection quantified again inside, under other names
+				inner := genExpr(d, tag, 0, "w", elem)
+				body = "( " + []string{"any", "all"}[rng.Intn(2)] + " " + ps + " as q, w { " + inner + " } ) " + []string{"and", "or"}[rng.Intn(2)] + " " + body
+			}
 			return "( " + op + " " + ps + " as " + bind + " { " + body + " } )"
 		}
 		return genMatch(d, tag, prefix, leafOf)
 	default:
 		return genMatch(d, tag, prefix, leafOf)
 	}
+}
+
+// ---- helpers of the enriched generator ----
+
+func firstSegment(parts []string) string {
+	if len(parts) > 0 && identRe.MatchString(parts[0]) && !strings.Contains(parts[0], "/") {
+		return parts[0]
+	}
+	return ""
+}
+
+// parenIfQuant: a quantifier as an operand of and/or must be parenthesised (the generator already does so; kept for safety).
+func parenIfQuant(e string) string {
+	t := strings.TrimSpace(e)
+	if strings.HasPrefix(t, "any ") || strings.HasPrefix(t, "all ") {
+		return "( " + t + " )"
+	}
+	return e
+}
+
+// splitQuant splits "( any S as b { body } )" into its header and body.
+func splitQuant(e string) (header, body string, ok bool) {
+	t := strings.TrimSpace(e)
+	if !strings.HasPrefix(t, "( any ") && !strings.HasPrefix(t, "( all ") {
+		return "", "", false
+	}
+	i := strings.Index(t, " { ")
+	if i < 0 || !strings.HasSuffix(t, " } )") {
+		return "", "", false
+	}
+	return t[2:i], t[i+3 : len(t)-4], true
+}
+
+// quantVar: the value (or, failing that, the first) binder of a quantifier header.
+func quantVar(h string) string {
+	i := strings.LastIndex(h, " as ")
+	if i < 0 {
+		return "x"
+	}
+	names := strings.Split(h[i+4:], ",")
+	v := strings.TrimSpace(names[len(names)-1])
+	if v == "_" {
+		v = strings.TrimSpace(names[0])
+	}
+	return v
 }
